@@ -33,6 +33,7 @@ import (
 	"github.com/hashicorp/consul/agent/consul"
 	"github.com/hashicorp/consul/agent/consul/state"
 	"github.com/hashicorp/consul/agent/structs"
+	"github.com/hashicorp/consul/api"
 )
 
 type M = map[string]any
@@ -53,9 +54,11 @@ type Rule struct {
 }
 
 type Role struct {
-	Pols []string `json:"pols"`
-	Svc  [][]int  `json:"svc"`
-	Node [][]int  `json:"node"`
+	Pols  []string `json:"pols"`
+	Svc   [][]int  `json:"svc"`
+	Node  [][]int  `json:"node"`
+	TSvc  [][]int  `json:"tsvc"`  // templated policies builtin/service {name}
+	TNode [][]int  `json:"tnode"` // templated policies builtin/node {name}, scoped to dc1
 }
 
 type Tok struct {
@@ -63,6 +66,8 @@ type Tok struct {
 	Roles []string `json:"roles"`
 	Svc   [][]int  `json:"svc"`
 	Node  [][]int  `json:"node"`
+	TSvc  [][]int  `json:"tsvc"`
+	TNode [][]int  `json:"tnode"`
 }
 
 type Env struct {
@@ -486,39 +491,76 @@ func nodeIdentities(ns []string) structs.ACLNodeIdentities {
 	return out
 }
 
-// links mirrors ACLResolver.resolvePoliciesForIdentity: token links + role links, deduplicated.
-func (w *abstractWorld) links(tok string) (pols []string, svc []string, node []string) {
+// templatedPolicies: builtin/service {name} and builtin/node {name} (the latter scoped to dc1, like a
+// node identity) as they are stored on a real structs.ACLToken / structs.ACLRole.
+func templatedPolicies(tsvc, tnode []string) structs.ACLTemplatedPolicies {
+	var out structs.ACLTemplatedPolicies
+	for _, n := range tsvc {
+		out = append(out, &structs.ACLTemplatedPolicy{TemplateID: structs.ACLTemplatedPolicyServiceID,
+			TemplateName: api.ACLTemplatedPolicyServiceName, TemplateVariables: &structs.ACLTemplatedPolicyVariables{Name: n}})
+	}
+	for _, n := range tnode {
+		out = append(out, &structs.ACLTemplatedPolicy{TemplateID: structs.ACLTemplatedPolicyNodeID,
+			TemplateName: api.ACLTemplatedPolicyNodeName, TemplateVariables: &structs.ACLTemplatedPolicyVariables{Name: n},
+			Datacenters: []string{"dc1"}})
+	}
+	return out
+}
+
+// identity-like links of a token (its own and those of its roles), each kind in the order the
+// resolver appends them
+type idLinks struct {
+	svc, node []string
+	tp        structs.ACLTemplatedPolicies // owner by owner (token, then its roles), as the resolver appends them
+}
+
+// links mirrors ACLResolver.resolvePoliciesForIdentity: token links + role links (not yet deduplicated).
+func (w *abstractWorld) links(tok string) (pols []string, ids idLinks) {
 	t := w.env.Tok[tok]
 	pols = append(pols, t.Pols...)
-	svc = append(svc, strs(t.Svc)...)
-	node = append(node, strs(t.Node)...)
+	ids.svc = append(ids.svc, strs(t.Svc)...)
+	ids.node = append(ids.node, strs(t.Node)...)
+	ids.tp = append(ids.tp, templatedPolicies(strs(t.TSvc), strs(t.TNode))...)
 	for _, rn := range t.Roles {
 		r, ok := w.env.Roles[rn]
 		if !ok {
 			continue
 		}
 		pols = append(pols, r.Pols...)
-		svc = append(svc, strs(r.Svc)...)
-		node = append(node, strs(r.Node)...)
+		ids.svc = append(ids.svc, strs(r.Svc)...)
+		ids.node = append(ids.node, strs(r.Node)...)
+		ids.tp = append(ids.tp, templatedPolicies(strs(r.TSvc), strs(r.TNode))...)
 	}
 	return
 }
 
-func syntheticPolicies(svc, node []string) []*structs.ACLPolicy {
+// syntheticPolicies mirrors resolvePoliciesForIdentity: every KIND is de-duplicated on its own
+// (ACLServiceIdentities / ACLNodeIdentities / ACLTemplatedPolicies .Deduplicate), then synthetic
+// policies are generated for service identities, node identities, templated policies - in this order.
+// A service identity X and a templated policy builtin/service X therefore give the SAME synthetic
+// policy twice in the list (same for node identities / builtin/node).
+func syntheticPolicies(ids idLinks) []*structs.ACLPolicy {
 	var out []*structs.ACLPolicy
 	em := structs.DefaultEnterpriseMetaInDefaultPartition()
-	for _, s := range svcIdentities(svc).Deduplicate() {
+	for _, s := range svcIdentities(ids.svc).Deduplicate() {
 		out = append(out, s.SyntheticPolicy(em))
 	}
-	for _, n := range nodeIdentities(node).Deduplicate() {
+	for _, n := range nodeIdentities(ids.node).Deduplicate() {
 		out = append(out, n.SyntheticPolicy(em))
+	}
+	for _, tp := range ids.tp.Deduplicate() {
+		p, err := tp.SyntheticPolicy(em)
+		if err != nil {
+			fatal("templated policy %s: %v", tp.TemplateName, err)
+		}
+		out = append(out, p)
 	}
 	return out
 }
 
 // freshFor: the token's own policies, parsed anew, no caches, no history.
 func (w *abstractWorld) freshFor(tok string) acl.Authorizer {
-	pols, svc, node := w.links(tok)
+	pols, ids := w.links(tok)
 	seen := map[string]bool{}
 	var texts []string
 	for _, p := range pols {
@@ -527,7 +569,7 @@ func (w *abstractWorld) freshFor(tok string) acl.Authorizer {
 			texts = append(texts, hclOf(rules))
 		}
 	}
-	for _, sp := range syntheticPolicies(svc, node) {
+	for _, sp := range syntheticPolicies(ids) {
 		texts = append(texts, sp.Rules)
 	}
 	return freshAuthorizer(texts, w.dflt)
@@ -569,7 +611,7 @@ func (cw *compileWorld) setPolicy(name string, rules []Rule) {
 func (cw *compileWorld) delPolicy(name string) { delete(cw.pols, name) }
 
 func (cw *compileWorld) resolve(tok string) acl.Authorizer {
-	pols, svc, node := cw.abs.links(tok)
+	pols, idl := cw.abs.links(tok)
 	ids := map[string]*structs.ACLPolicy{}
 	var order []string
 	for _, p := range pols {
@@ -585,7 +627,7 @@ func (cw *compileWorld) resolve(tok string) acl.Authorizer {
 	for _, id := range order {
 		list = append(list, ids[id])
 	}
-	list = append(list, syntheticPolicies(svc, node)...)
+	list = append(list, syntheticPolicies(idl)...)
 	a, err := list.Compile(cw.cache, &acl.Config{})
 	if err != nil {
 		fatal("compile: %v", err)
@@ -661,7 +703,8 @@ func newResolverWorld(w World, abs *abstractWorld) *resolverWorld {
 	for _, name := range sortedKeys(w.Env.Roles) {
 		r := w.Env.Roles[name]
 		role := &structs.ACLRole{ID: polID(name), Name: name,
-			ServiceIdentities: svcIdentities(strs(r.Svc)), NodeIdentities: nodeIdentities(strs(r.Node))}
+			ServiceIdentities: svcIdentities(strs(r.Svc)), NodeIdentities: nodeIdentities(strs(r.Node)),
+			TemplatedPolicies: templatedPolicies(strs(r.TSvc), strs(r.TNode))}
 		for _, p := range r.Pols {
 			role.Policies = append(role.Policies, structs.ACLRolePolicyLink{ID: polID(p)})
 		}
@@ -674,7 +717,8 @@ func newResolverWorld(w World, abs *abstractWorld) *resolverWorld {
 	for _, name := range sortedKeys(w.Env.Tok) {
 		t := w.Env.Tok[name]
 		tok := &structs.ACLToken{AccessorID: uuidOf("acc:" + name), SecretID: uuidOf("sec:" + name),
-			ServiceIdentities: svcIdentities(strs(t.Svc)), NodeIdentities: nodeIdentities(strs(t.Node))}
+			ServiceIdentities: svcIdentities(strs(t.Svc)), NodeIdentities: nodeIdentities(strs(t.Node)),
+			TemplatedPolicies: templatedPolicies(strs(t.TSvc), strs(t.TNode))}
 		for _, p := range t.Pols {
 			tok.Policies = append(tok.Policies, structs.ACLTokenPolicyLink{ID: polID(p)})
 		}
@@ -747,11 +791,11 @@ func normEnv(e Env) Env {
 		return x
 	}
 	for k, r := range e.Roles {
-		r.Pols, r.Svc, r.Node = ns(r.Pols), nn(r.Svc), nn(r.Node)
+		r.Pols, r.Svc, r.Node, r.TSvc, r.TNode = ns(r.Pols), nn(r.Svc), nn(r.Node), nn(r.TSvc), nn(r.TNode)
 		e.Roles[k] = r
 	}
 	for k, t := range e.Tok {
-		t.Pols, t.Roles, t.Svc, t.Node = ns(t.Pols), ns(t.Roles), nn(t.Svc), nn(t.Node)
+		t.Pols, t.Roles, t.Svc, t.Node, t.TSvc, t.TNode = ns(t.Pols), ns(t.Roles), nn(t.Svc), nn(t.Node), nn(t.TSvc), nn(t.TNode)
 		e.Tok[k] = t
 	}
 	return e
